@@ -127,7 +127,9 @@ class _Record(TypeDefinition):
         try:
             return self.values[key]
         except KeyError:
-            return field.type.default_value if field.default_value is None else field.default_value
+            default = field.type.default_value if field.default_value is None else field.default_value
+            # a class-level list must never be handed out: every read gets a list of its own
+            return list(default) if isinstance(default, list) else default
 
     @staticmethod
     def get_value(any_: Any) -> dict[str, Any] | list[dict[str, Any]] | Any:
